@@ -26,12 +26,23 @@ pub fn judge_source(prog: &Prog, ctx: &mut Ctx, origin: &str) -> Judged {
         Ok(a) => a,
         Err(e) => return ctx.settle(Violation::new("parse-rejected", e, case())),
     };
+    // a limit program sits on a width of the format: the compiler or the serializer may refuse
+    // it (C11 checks that every build does so alike); only what is emitted is judged
+    let may_be_refused = origin.starts_with("limit:");
     let program = match fmlrun::compile(&ast) {
         Ok(p) => p,
+        Err(_) if may_be_refused => {
+            ctx.label("limit-program-refused");
+            return Ok(());
+        }
         Err(e) => return ctx.settle(Violation::new("compile-rejected", e, case())),
     };
     let bytes = match fmlrun::serialize(&program) {
         Ok(b) => b,
+        Err(_) if may_be_refused => {
+            ctx.label("limit-program-refused-by-serializer");
+            return Ok(());
+        }
         Err(e) => return ctx.settle(Violation::new("serialize-failed", e, case())),
     };
     let model = match reader::read(&bytes) {
@@ -306,22 +317,15 @@ impl Property for C02 {
         // programs on the widths of the format (254..257 arguments, members, locals): whatever
         // the compiler emits for the ones it accepts must be well-formed
         let mut limit_programs = crate::gen::limits::programs();
-        if ctx.tier == Tier::Thorough {
-            limit_programs.extend(crate::gen::limits::huge_programs());
-        }
+        limit_programs.extend(crate::gen::limits::huge_programs());
         for (i, (name, src)) in limit_programs.into_iter().enumerate() {
             if !ctx.shard_mine(i + 5) {
                 continue;
             }
             if let Ok(ast) = fmlrun::parse(&src) {
-                if fmlrun::compile(&ast).is_err() {
-                    // beyond a width of the format: the compiler may refuse (C11 checks that every build does)
-                    ctx.label("limit-program-refused");
-                    continue;
-                }
                 let prog = from_fml_ast(&ast);
                 ctx.label("limit-program");
-                if let Err(mut v) = judge_source(&prog, ctx, &name) {
+                if let Err(mut v) = judge_source(&prog, ctx, &format!("limit:{}", name)) {
                     v.detail = format!("[limit program {}] {}", name, v.detail);
                     out.push(v);
                 }
